@@ -49,6 +49,14 @@ def openAfter : Bool → List FP → Bool
   | o, [] => o
   | o, p :: rest => openAfter (stepOpen o p) rest
 
+/-- Between function and argument, `FunctionCall.from_cst` moves the comments on the function's row
+    (`function_after`) in front of the others (`argument.before`). The only way a comment that stays
+    behind precedes one that is moved: the first comment touches the function (`f/* a */ /* b */ x`:
+    `start_byte > function_node.end_byte` fails for it) and the second one is on the same row. -/
+def appOrderOk : GC → Bool
+  | p :: q :: _ => !(p.1.isEmpty && !containsNL q.1)
+  | _ => true
+
 mutual
 /-- A comment that is attached to the previous item (same row) while comments are still pending in
     `before` overtakes them. `orderOk` says this does not happen: `pending` = "`before` holds a
@@ -57,6 +65,8 @@ def Cst.orderOk : Cst → Bool
   | .leaf _ _ => true
   | .list its _ => its.orderOk .list .none false false
   | .set _ _ its _ => its.orderOk .set .none false false
+  | .paren its _ => its.orderOk .paren .none false false
+  | .app f cs _ a => f.orderOk && appOrderOk cs && a.orderOk
 def Items.orderOk : Items → Mode → Prev → Bool → Bool → Bool
   | .nil, _, _, _, _ => true
   | .cmt g _ rest, m, prev, pending, hasItem =>
@@ -68,6 +78,27 @@ def Items.orderOk : Items → Mode → Prev → Bool → Bool → Bool
 end
 
 def File.orderOk (f : File) : Bool := f.items.orderOk .file .none false false
+
+mutual
+/-- the part of `orderOk` that is about item sequences (lists, sets, parentheses, top level) only:
+    `orderOk` without the condition `appOrderOk` on calls (used to state that `appOrderOk` is needed) -/
+def Cst.orderOkSeq : Cst → Bool
+  | .leaf _ _ => true
+  | .list its _ => its.orderOkSeq .list .none false false
+  | .set _ _ its _ => its.orderOkSeq .set .none false false
+  | .paren its _ => its.orderOkSeq .paren .none false false
+  | .app f _ _ a => f.orderOkSeq && a.orderOkSeq
+def Items.orderOkSeq : Items → Mode → Prev → Bool → Bool → Bool
+  | .nil, _, _, _, _ => true
+  | .cmt g _ rest, m, prev, pending, hasItem =>
+    let inl := prevAllowsInline m prev && !containsNL g && hasItem
+    if inl then !pending && rest.orderOkSeq m .cmt pending hasItem
+    else rest.orderOkSeq m .cmt true hasItem
+  | .elem _ c rest, m, _, _, _ => c.orderOkSeq && rest.orderOkSeq m .item false true
+  | .bind _ _ _ _ _ _ v _ _ rest, m, _, _, _ => v.orderOkSeq && rest.orderOkSeq m .item false true
+end
+
+def File.orderOkSeq (f : File) : Bool := f.items.orderOkSeq .file .none false false
 
 /-- is `w` an acceptable separator in front of the token/comment `x`: formatter normal form
     (`""`, `" "`, one or two line breaks followed by spaces), and nothing at all in front of `;` -/
@@ -107,6 +138,8 @@ def Expr.effAfter : Expr → Bool → List Trivia
   | .leaf _ _ _ a, na => if na then [] else a
   | .list _ _ _ _ a, na => if na then [] else a
   | .set _ _ _ _ _ a, na => if na then [] else a
+  | .paren _ _ _ _ _ _ a, na => if na then [] else a
+  | .app _ _ _ _ _ a, na => if na then [] else a
 
 def closedB (ts : List Trivia) : Bool :=
   match ts.getLast? with
@@ -126,6 +159,8 @@ def Expr.inlineCleanB : Expr → Bool
   | .list v ml _ _ _ => (ml || allFlatB v) && allInlineCleanB v
   | .set v ml _ _ _ _ => (ml || allFlatB v) && allInlineCleanB v
   | .binding _ v _ _ _ => v.inlineCleanB
+  | .paren .. => false     -- parentheses / calls: outside the spacing theorem so far (`File.basic`)
+  | .app .. => false
 def allInlineCleanB : List Expr → Bool
   | [] => true
   | e :: rest => e.inlineCleanB && allInlineCleanB rest
@@ -145,12 +180,53 @@ def Expr.beforeFlatB : Expr → Bool
   | .list v ml _ _ _ => (ml || allBeforeEmpty v) && allBeforeFlatB v
   | .set v ml _ _ _ _ => (ml || allBeforeEmpty v) && allBeforeFlatB v
   | .binding _ v _ _ _ => v.beforeFlatB
+  | .paren .. => false
+  | .app .. => false
 def allBeforeFlatB : List Expr → Bool
   | [] => true
   | e :: rest => e.beforeFlatB && allBeforeFlatB rest
 end
 
 def Src.beforeFlatB (s : Src) : Bool := allBeforeFlatB s.exprs
+
+mutual
+/-- `beforeFlatB` carried through parentheses and calls homomorphically (no condition of their own):
+    the exclusion of the container fragment alone. `C18.cex_comment_after_open_paren` shows that it
+    does not suffice once parentheses are in the fragment. -/
+def Expr.beforeFlatG : Expr → Bool
+  | .leaf .. => true
+  | .list v ml _ _ _ => (ml || allBeforeEmpty v) && allBeforeFlatG v
+  | .set v ml _ _ _ _ => (ml || allBeforeEmpty v) && allBeforeFlatG v
+  | .binding _ v _ _ _ => v.beforeFlatG
+  | .paren v _ _ _ _ _ _ => v.beforeFlatG
+  | .app n x _ _ _ _ => n.beforeFlatG && x.beforeFlatG
+def allBeforeFlatG : List Expr → Bool
+  | [] => true
+  | e :: rest => e.beforeFlatG && allBeforeFlatG rest
+end
+
+def Src.beforeFlatG (s : Src) : Bool := allBeforeFlatG s.exprs
+
+/-! ### the container-only part of the fragment
+
+The theorems of C18 (spacing normal form) and C06 (fixed point of comment-free files) are proved for
+the files without parentheses and function calls; C01 and C03 cover the whole fragment. -/
+
+mutual
+def Cst.basic : Cst → Bool
+  | .leaf _ _ => true
+  | .list its _ => its.basic
+  | .set _ _ its _ => its.basic
+  | .paren .. => false
+  | .app .. => false
+def Items.basic : Items → Bool
+  | .nil => true
+  | .cmt _ _ rest => rest.basic
+  | .elem _ c rest => c.basic && rest.basic
+  | .bind _ _ _ _ _ _ v _ _ rest => v.basic && rest.basic
+end
+
+def File.basic (f : File) : Bool := f.items.basic
 
 /-! ### comment-free files: the tree of the output (`C06.frag_fixed_point_comment_free`) -/
 
@@ -159,6 +235,8 @@ def Cst.cf : Cst → Bool
   | .leaf _ _ => true
   | .list its _ => its.cf
   | .set _ _ its _ => its.cf
+  | .paren .. => false     -- the normaliser `Cst.norm` covers containers only so far (`File.basic`)
+  | .app .. => false
 def Items.cf : Items → Bool
   | .nil => true
   | .cmt _ _ _ => false
@@ -188,6 +266,8 @@ def Cst.norm : Cst → Nat → Cst
     else if containsNL ((if r then rg else []) ++ its.flatten ++ cg) then
       .set r (if r then [' '] else []) (its.normML (i + 2)) (vgap cg i)
     else .set r (if r then [' '] else []) (its.normFlat (i + 2)) [' ']
+  | .paren its cg, _ => .paren its cg     -- not covered by the normaliser (`File.basic`)
+  | .app f cs g a, _ => .app f cs g a
 /-- items of a container that spans several lines, one per line at indentation `j` -/
 def Items.normML : Items → Nat → Items
   | .nil, _ => .nil
